@@ -575,6 +575,20 @@ func (s *scene) offline(run *evid.Run, label string, wit func() map[string]any) 
 	recs := append([]*opRec(nil), s.recs...)
 	sort.Slice(recs, func(i, j int) bool { return recs[i].Call < recs[j].Call })
 	c02Final(run, final, label, wit)
+	// everything has returned: a publication made NOW, alone, names the heads the log has now - whatever publications
+	// overlapped with writers during the run
+	if len(final.Heads) > 0 {
+		if c, err := s.L.ToMultihash(s.w.Ctx); err == nil {
+			if node, err := s.w.IOv().Read(s.w.Ctx, s.w.Store.API(), c); err == nil {
+				if jl, err := s.w.IOv().DecodeRawJSONLog(node); err == nil {
+					run.Count("publications_after_the_run", 1)
+					if !model.EqualAsSets(hx.Cids(jl.Heads), final.Heads) {
+						run.Violate("C13/stale-publication", det(), wit(), "a manifest published after every operation had returned names the heads %v, the log's heads are %v", hx.SortedShorts(hx.Cids(jl.Heads)), hx.SortedShorts(final.Heads))
+					}
+				}
+			}
+		}
+	}
 	var apps []*opRec
 	for _, r := range recs {
 		if r.Kind == "append" {
